@@ -241,11 +241,25 @@ def _tested(kind, g, inp, mat=None, voigt=True, alpha=None, EM=None):
     return m, s, dom
 
 
-def run_module(kind, g, u, mat=None, voigt=True):
-    m, _, dom = _tested(kind, g, u, mat=mat, voigt=voigt)
-    em = np.array(m.element_matrix, dtype=float)
+def _respond(m, s, u):
+    """response of a LINEAR element / nodal operator on the data u, deterministically varied in two ways that must not matter:
+    (a) the same instance has been evaluated before on an INTEGER-typed state of the same size; (b) the data are handed over at
+    magnitude 2^-40 (exact scaling) and the result is scaled back"""
+    u = np.asarray(u, dtype=float)
+    key = int(np.abs(u).sum() * 4) + u.size
+    if key % 2 == 0:
+        s.state = (np.arange(u.size) % 5).reshape(u.shape)
+        m.response()
+    mag = 2.0 ** -40 if key % 3 == 0 else 1.0
+    s.state = u * mag
     m.response()
-    return em, np.asarray(m.sig_out[0].state), dom
+    return np.asarray(m.sig_out[0].state) / mag
+
+
+def run_module(kind, g, u, mat=None, voigt=True):
+    m, s_, dom = _tested(kind, g, u, mat=mat, voigt=voigt)
+    em = np.array(m.element_matrix, dtype=float)
+    return em, _respond(m, s_, u), dom
 
 
 def run_thermo(g, x, mat, alpha):
@@ -262,15 +276,13 @@ def run_K(g, x, mat):
 
 
 def run_elemop(g, EM, u):
-    m, _, _ = _tested("elemop", g, u, EM=EM)
-    m.response()
-    return np.asarray(m.sig_out[0].state)
+    m, s_, _ = _tested("elemop", g, u, EM=EM)
+    return _respond(m, s_, u)
 
 
 def run_nodalop(g, EM, x):
-    m, _, _ = _tested("nodalop", g, x, EM=EM)
-    m.response()
-    return np.asarray(m.sig_out[0].state)
+    m, s_, _ = _tested("nodalop", g, x, EM=EM)
+    return _respond(m, s_, x)
 
 
 # ------------------------------------------------------------------------------------------------
